@@ -52,3 +52,124 @@ fn c14_cbor_decode_positive() {
 // for any class, even with the big-integer fall-back cut and a loop-free writer: symbolic execution
 // walks every arm of the recursive `encode`.  See DESIGN.md (C14); the wrappers it used are still
 // appended to write/cbor.rs and read/cbor.rs.
+
+// ------------------------------------------------------------------------------------------
+// C13 / C14: the CSV and TSV field readers invert the quoting the formats define
+// ------------------------------------------------------------------------------------------
+/// RFC 4180 quoting of a field: surround with `"`, double every `"` inside
+fn csv_quote(b: &[u8], out: &mut [u8; 10]) -> usize {
+    let mut n = 0;
+    out[n] = b'"';
+    n += 1;
+    let mut i = 0;
+    while i < b.len() {
+        if b[i] == b'"' {
+            out[n] = b'"';
+            n += 1;
+        }
+        out[n] = b[i];
+        n += 1;
+        i += 1;
+    }
+    out[n] = b'"';
+    n + 1
+}
+/// TSV escaping of a field (the IANA text/tab-separated-values convention jaq documents):
+/// `\n \r \t \0 \\` for newline, carriage return, tab, NUL, backslash
+fn tsv_escape(b: &[u8], out: &mut [u8; 10]) -> usize {
+    let mut n = 0;
+    let mut i = 0;
+    while i < b.len() {
+        let e = match b[i] {
+            b'\n' => Some(b'n'),
+            b'\r' => Some(b'r'),
+            b'\t' => Some(b't'),
+            0 => Some(b'0'),
+            b'\\' => Some(b'\\'),
+            _ => None,
+        };
+        match e {
+            Some(c) => {
+                out[n] = b'\\';
+                out[n + 1] = c;
+                n += 2;
+            }
+            None => {
+                out[n] = b[i];
+                n += 1;
+            }
+        }
+        i += 1;
+    }
+    n
+}
+/// run the real reader on `quote(b) ++ terminator` and require that it returns exactly `b`
+fn reader_case(b: &[u8], tsv: bool, term: Option<u8>) {
+    let mut text = [0u8; 10];
+    let mut len = if tsv { tsv_escape(b, &mut text) } else { csv_quote(b, &mut text) };
+    if let Some(t) = term {
+        text[len] = t;
+        len += 1;
+    }
+    let (got, next, quoted, left) = crate::read::tabular::verif_field(&text[..len], tsv);
+    assert!(next == term && left == 0);
+    assert!(tsv || quoted);
+    assert!(got.len() == b.len());
+    let mut i = 0;
+    while i < b.len() {
+        assert!(got[i] == b[i]);
+        i += 1;
+    }
+    core::mem::forget(got);
+}
+/// For every field content of length <= 2 over the format's metacharacters and a letter, and
+/// each way a field can end (end of input, separator, newline): the real field reader, given
+/// the format's quoting / escaping of the content, returns exactly the content, stops at the
+/// terminator and consumes nothing else - "a CSV or TSV reader of `@csv` / `@tsv` rows recovers
+/// exactly the original data and nothing else".  Contents are enumerated concretely (symbolic
+/// bytes exhaust CBMC's time or memory).
+fn reader_inverts(tsv: bool, first: Option<u8>) {
+    let al: &[u8] = if tsv { b"\\\t\n\r\0na" } else { b"\",\n\ra" };
+    let sep = if tsv { b'\t' } else { b',' };
+    let terms = [None, Some(sep), Some(b'\n')];
+    let mut t = 0;
+    while t < 3 {
+        match first {
+            None => reader_case(&[], tsv, terms[t]),
+            Some(c0) => {
+                reader_case(&[c0], tsv, terms[t]);
+                let mut a = 0;
+                while a < al.len() {
+                    reader_case(&[c0, al[a]], tsv, terms[t]);
+                    a += 1;
+                }
+            }
+        }
+        t += 1;
+    }
+}
+macro_rules! reader_harnesses {
+    ($($name:ident: $tsv:expr, $first:expr;)*) => {$(
+        #[kani::proof]
+        #[kani::unwind(12)]
+        fn $name() {
+            reader_inverts($tsv, $first)
+        }
+    )*};
+}
+reader_harnesses! {
+    c13_csv_reader_empty: false, None;
+    c13_csv_reader_quote: false, Some(b'"');
+    c13_csv_reader_comma: false, Some(b',');
+    c13_csv_reader_nl: false, Some(b'\n');
+    c13_csv_reader_cr: false, Some(b'\r');
+    c13_csv_reader_a: false, Some(b'a');
+    c13_tsv_reader_empty: true, None;
+    c13_tsv_reader_bs: true, Some(b'\\');
+    c13_tsv_reader_tab: true, Some(b'\t');
+    c13_tsv_reader_nl: true, Some(b'\n');
+    c13_tsv_reader_cr: true, Some(b'\r');
+    c13_tsv_reader_nul: true, Some(0);
+    c13_tsv_reader_n: true, Some(b'n');
+    c13_tsv_reader_a: true, Some(b'a');
+}
